@@ -106,24 +106,34 @@ class Context:
             print(f"KNOWN-FINDING: property={self.prop} {e['what']} [{fid}; {n} explored cases]")
         rc = 0
         replay_paths = []
+        discarded = []
         if unmatched:
             from .core import vsort
             unmatched.sort(key=lambda t: (vsort((t[0], None, None))[:2], t[1]))
-            for size, key, n, lst in unmatched:
+            for idx, (size, key, n, lst) in enumerate(unmatched):
                 size, sig, case, msg = lst[0]
-                # reproduce in this process before reporting
-                if replay_fn is not None:
-                    try:
-                        again = replay_fn(case)
-                    except Exception as ex:  # noqa
-                        raise InternalError(f"replay of a reported case crashed: {type(ex).__name__}: {ex}")
-                    if not again:
-                        raise InternalError(
-                            f"violation did not reproduce in the parent process: sig={key} case={jdump(case)} got={again}"
-                        )
                 path = write_replay(self.prop, sig, case, msg)
+                # reproduce before reporting: replay the written artefact in a FRESH interpreter (process-global state of
+                # this process or of the workers must not decide whether a case counts)
+                if replay_fn is not None and len(replay_paths) < 6:
+                    rc_replay, out = run_replay_subprocess(self.prop, path)
+                    if rc_replay != 1:
+                        # only violations that a fresh process reproduces from the artefact alone are reported; one that
+                        # depended on what else this run's processes had executed is set aside (and said so)
+                        discarded.append((key, case, rc_replay, out))
+                        print(f"  NOT-REPRODUCED in a fresh process (exit {rc_replay}), set aside: {msg[:200]}\n    signature={key}")
+                        try:
+                            os.remove(path)
+                        except OSError:
+                            pass
+                        continue
                 replay_paths.append(path)
                 print(f"  violation x{n}: {msg}\n    signature={key}\n    case={jdump(case)[:600]}")
+            if not replay_paths:
+                key, case, rc_replay, out = discarded[0]
+                raise InternalError(
+                    f"no violation of this run reproduced in a fresh process: sig={key} case={jdump(case)[:400]} exit={rc_replay} output={out[-300:]}"
+                )
             # the smallest unmatched case first
             print(f"VIOLATION property={self.prop} replay={replay_paths[0]}")
             for p in replay_paths[1:8]:
@@ -178,6 +188,17 @@ class Context:
             json.dump(ev, f, indent=1, sort_keys=True, default=repr)
             f.write("\n")
         os.replace(tmp, path)
+
+
+def run_replay_subprocess(prop: str, path: str):
+    import subprocess
+
+    check = os.path.join(VERIF_DIR, "check")
+    try:
+        r = subprocess.run([check, prop, "--replay", path], capture_output=True, text=True, timeout=900)
+        return r.returncode, r.stdout + r.stderr
+    except subprocess.TimeoutExpired:
+        return -9, "replay timed out"
 
 
 def write_replay(prop: str, sig: dict, case: dict, msg: str) -> str:
